@@ -3,6 +3,7 @@ import ScyllaVerif.Model.Retry
 import ScyllaVerif.Model.Exec
 import ScyllaVerif.Model.RetryFrames
 import ScyllaVerif.Model.RetryPager
+import ScyllaVerif.Model.RetryProfile
 /-! Line-protocol driver for C06 (deterministic: the implementation's line is ignored).
 
 * `dec <policy>/<i|n> - <cl>:<err>;<cl>:<err>;…`  — one retry session fed a history; prints its decisions.
@@ -13,7 +14,7 @@ import ScyllaVerif.Model.RetryPager
   attempts beyond the scripted outcomes succeed.  Prints the attempt log, the decisions, the result, the
   number of sessions created. -/
 namespace ScyllaVerif.Drive.C06
-open ScyllaVerif.Util ScyllaVerif.Retry ScyllaVerif.Exec ScyllaVerif.RetryFrames ScyllaVerif.RetryPager
+open ScyllaVerif.Util ScyllaVerif.Retry ScyllaVerif.Exec ScyllaVerif.RetryFrames ScyllaVerif.RetryPager ScyllaVerif.RetryProfile
 
 def clName : Consistency → String
   | .any => "any" | .one => "one" | .two => "two" | .three => "three" | .quorum => "quorum" | .all => "all"
@@ -458,28 +459,54 @@ def runWireCase (ws : List String) (impl : String) : String :=
         | _, _ => none
       | _ => none
     let implToks := (words impl).drop 1
-    match n.toNat?, p, idem.toNat?, k, clSet, (scripts.splitOn "/").mapM parseScript with
-    | some n, some p, some idem, some k, some clSet, some scs =>
-      -- WHERE the policy / consistency / timeout are configured (harness/src/e2e/retry.rs builds exactly these)
-      let real : Profile := ⟨clSet.getD .localQuorum, p, if tmoProfile then tmo else none⟩
+    -- `idem=-`: the caller never sets the flag: `StatementConfig::default()`
+    let idemSet : Option (Option Bool) := if idem == "-" then some none else idem.toNat?.map (fun i => some (i != 0))
+    let derOps : Option (List String) := match kvOf ws "der" with
+      | none => some [] | some "-" => some []
+      | some d => let l := d.splitOn "."; if l.all (fun o => ["lb", "ser", "sp", "cl", "tm", "pol"].contains o) then some l else none
+    match n.toNat?, p, idemSet, k, clSet, (scripts.splitOn "/").mapM parseScript, derOps with
+    | some n, some p, some idemSet, some k, some clSet, some scs, some der =>
+      -- WHERE the policy / consistency / timeout are configured (harness/src/e2e/retry.rs builds exactly these
+      -- profiles, every one of them through `ExecutionProfile::builder()…build()`: Model/RetryProfile.lean `built`)
+      let clOps : List Setter := match clSet with | some c => [.cl c] | none => []
+      let tmoOps : List Setter := if tmoProfile && tmo.isSome then [.timeout tmo] else []
+      let real : Profile := (built ([.policy p] ++ clOps ++ tmoOps)).toProfile
+      let decoy : Consistency → Profile := fun c => (built [.policy .fallthrough, .cl c]).toProfile
+      -- a profile DERIVED from a base profile (`to_builder` / `pointee_to_builder`): what a setter of the chain sets
+      -- is a decoy on the base
+      let base : FullProfile := built
+        ([.policy (if der.contains "pol" then .fallthrough else p)]
+          ++ (if der.contains "cl" then [.cl .three] else clOps)
+          ++ (if der.contains "tm" then [.timeout (some 50)] else tmoOps))
+      let derived : Profile := (derive base (der.map (fun o =>
+        if o == "lb" then Setter.lbp 1 else if o == "ser" then .serial (some 0) else if o == "sp" then .spec none
+        else if o == "cl" then .cl (clSet.getD .localQuorum)
+        else if o == "tm" then .timeout (if tmoProfile then tmo else none) else .policy p))).toProfile
       let onStmt := cfg == "stmt" || cfg == "both"
       let sessionDefault : Profile :=
         if cfg == "profile" then real
-        else if cfg == "handle" || cfg == "both" then ⟨.three, .fallthrough, none⟩
-        else ⟨.localQuorum, .default, if tmoProfile then tmo else none⟩
+        else if cfg == "dprofile" then derived
+        else if cfg == "handle" || cfg == "both" || cfg == "dhandle" then decoy .three
+        -- cfg = stmt (possibly with a profile that carries only a timeout) / none: an otherwise untouched profile
+        else (built tmoOps).toProfile
       let stmtProfile : Option Profile :=
-        if cfg == "handle" then some real else if cfg == "both" then some ⟨.two, .fallthrough, none⟩ else none
-      let stmt : StmtCfg := ⟨idem != 0, if onStmt then clSet else none, if onStmt then some p else none,
-        if tmoProfile then none else tmo, stmtProfile⟩
-      -- `idems=0110…`: the idempotence flag of every single request (same text, different callers' flags)
-      let idems : Option (List Bool) := (kvOf ws "idems").map (fun t => t.toList.map (· == '1'))
+        if cfg == "handle" then some real else if cfg == "both" then some (decoy .two)
+        else if cfg == "dhandle" then some derived else none
+      let stmt : StmtCfg := { untouchedStmt with
+        idem := idemSet.getD untouchedStmt.idem, cl := if onStmt then clSet else none,
+        policy := if onStmt then some p else none, timeout := if tmoProfile then none else tmo, profile := stmtProfile }
+      -- `idems=01-0…`: the idempotence flag of every single request (same text, different callers' flags; `-` = unset)
+      let idems : Option (List (Option Bool)) :=
+        (kvOf ws "idems").map (fun t => t.toList.map (fun c => if c == '-' then none else some (c == '1')))
       "retry " ++ " ".intercalate (scs.zipIdx.map (fun (sc, i) =>
-        let stmt := { stmt with idem := match idems with | some fl => fl.getD i stmt.idem | none => stmt.idem }
+        let stmt := { stmt with idem := match idems with
+          | some fl => (match fl[i]? with | some f => f.getD untouchedStmt.idem | none => stmt.idem)
+          | none => stmt.idem }
         -- the single-connection pager: hard-coded fall-through policy, one connection
         let ex := if kind == "ctl" then singleConnectionPagerParams stmt.idem (clSet.getD .localQuorum) none
           else if pages.isSome then pagingExecutorNew stmt sessionDefault else sessionParams stmt sessionDefault
         wireRequest ex (if kind == "ctl" then 1 else n) k pages (via == "session") sc.1 sc.2 (implToks.getD i "")))
-    | _, _, _, _, _, _ => "bad-case"
+    | _, _, _, _, _, _, _ => "bad-case"
   | _, _, _, _, _, _, _ => "bad-case"
 
 def run (case _impl : String) : String :=
